@@ -19,22 +19,39 @@ Lemma pretty_indices_unfold fuel ob g :
   bind (roots_loop ob fuel (indices_where (has_kind K_NODE) 0 g) (init_state g 0)) (leftover (length g)).
 Proof. reflexivity. Qed.
 
-Lemma roots_loop_preserves P ob fuel l :
-  (forall i, preserves P (assign i)) -> (forall i st, P st -> P (rebuild_at ob [] i st)) ->
-  preserves P (roots_loop ob fuel l).
-Proof. intros HA HR. unfold roots_loop. pres HA HR. Qed.
+Lemma roots_loop_preserves (P : list N -> sstate -> Prop) ob fuel l S :
+  (forall S i, preserves (P S) (assign i)) ->
+  (forall S i st, P S st -> visited st i = false -> P (i :: S) (s_mark i st)) ->
+  (forall S i st st', P (i :: S) st -> s_set_index i st = Ok st' -> P S st') ->
+  (forall S i st, P S st -> P S (rebuild_at ob [] i st)) ->
+  preserves (P S) (roots_loop ob fuel l).
+Proof. intros HA HM HX HR. unfold roots_loop. pres HA HM HX HR. Qed.
+
+Lemma roots_loop_preserves_unary (Q : sstate -> Prop) ob fuel l :
+  (forall i, preserves Q (assign i)) -> (forall i st, Q st -> Q (s_mark i st)) ->
+  (forall i, preserves Q (s_set_index i)) -> (forall i st, Q st -> Q (rebuild_at ob [] i st)) ->
+  preserves Q (roots_loop ob fuel l).
+Proof.
+  intros HA HM HX HR. apply (roots_loop_preserves (fun _ => Q) ob fuel l []).
+  - intros _ i. apply HA.
+  - intros _ i st H _. apply HM. exact H.
+  - intros _ i st st' H E. eapply HX; eauto.
+  - intros _ i st. apply HR.
+Qed.
 
 (* ---- sort_perm ---- *)
 Theorem pretty_perm fuel ob g st :
-  vlen g < NPOS -> pretty_indices fuel ob g = Ok st -> is_perm (st_nidx st) (vlen g) /\ SInv (vlen g) 0 st.
+  vlen g < NPOS -> pretty_indices fuel ob g = Ok st -> is_perm (st_nidx st) (vlen g) /\ SInv (vlen g) 0 [] st.
 Proof.
   intros Hn H. rewrite pretty_indices_unfold in H.
   destruct (roots_loop ob fuel _ (init_state g 0)) as [s1| |] eqn:E; cbn [bind] in H; try discriminate.
   assert (Hs : 0 + vlen g < 4294967296) by (pose proof NPOS_lt; lia).
-  assert (H1 : SInv (vlen g) 0 s1).
-  { eapply (roots_loop_preserves (SInv (vlen g) 0)); [| |exact E|apply init_inv].
-    - intros i s s' Ha HI. eapply assign_inv; eauto.
-    - intros i s. apply rebuild_at_sinv. }
+  assert (H1 : SInv (vlen g) 0 [] s1).
+  { eapply (roots_loop_preserves (SInv (vlen g) 0)); [| | | |exact E|apply init_inv].
+    - intros S i s s' Ha HI. eapply assign_inv; eauto.
+    - intros S i s. apply mark_inv.
+    - intros S i s s' HI Hx. eapply set_index_inv; eauto.
+    - intros S i s. apply rebuild_at_sinv. }
   replace (length g) with (N.to_nat (vlen g)) in H by (unfold vlen; lia).
   destruct (leftover_complete _ _ _ _ Hs H H1) as (HI & Hc).
   split; [apply complete_perm; assumption|exact HI].
@@ -57,17 +74,33 @@ Qed.
 Definition first_root (g : list sblock) : option N :=
   find (fun i => negb (has_parent g i)) (indices_where (has_kind K_NODE) 0 g).
 
-Definition root_at (r : N) (st : sstate) : Prop := vget (st_nidx st) r = Some 0 /\ In r (st_vis st).
+(* the root is numbered 0 and is not one of the pending collision blocks *)
+Definition root_at (r : N) (S : list N) (st : sstate) : Prop :=
+  vget (st_nidx st) r = Some 0 /\ In r (st_vis st) /\ ~ In r S.
 
-Lemma root_at_assign r i : preserves (root_at r) (assign i).
+Lemma root_at_assign r S i : preserves (root_at r S) (assign i).
 Proof.
-  intros st st' H (Hv & Hin). destruct (assign_cases _ _ _ H) as [(_ & ->)|(Hnot & v & Hs & ->)]; [split; assumption|].
-  split; cbn [st_nidx st_vis]; [|right; exact Hin].
+  intros st st' H (Hv & Hin & HS). destruct (assign_cases _ _ _ H) as [(_ & ->)|(Hnot & v & Hs & ->)]; [repeat split; assumption|].
+  split; [|split; [right; exact Hin|exact HS]]. cbn [st_nidx].
   rewrite (vget_vset _ _ _ _ _ Hs). destruct (N.eqb_spec r i) as [->|_]; [contradiction|exact Hv].
 Qed.
 
-Lemma root_at_rebuild ob rso r i st : root_at r st -> root_at r (rebuild_at ob rso i st).
-Proof. intros (H1 & H2). destruct (rebuild_at_fields ob rso i st) as (E1 & E2 & _). split; rewrite ?E1, ?E2; assumption. Qed.
+Lemma root_at_mark r S i st : root_at r S st -> visited st i = false -> root_at r (i :: S) (s_mark i st).
+Proof.
+  intros (Hv & Hin & HS) V. apply visited_false in V.
+  split; [exact Hv|]. split; [right; exact Hin|]. intros [->|Hc]; contradiction.
+Qed.
+
+Lemma root_at_index r S i st st' : root_at r (i :: S) st -> s_set_index i st = Ok st' -> root_at r S st'.
+Proof.
+  intros (Hv & Hin & HS) H. unfold s_set_index in H.
+  destruct (vset (st_nidx st) i (st_next st)) as [v|] eqn:Es; [|discriminate]. inversion H; subst st'.
+  split; [|split; [exact Hin|intros Hc; apply HS; right; exact Hc]]. cbn [st_nidx].
+  rewrite (vget_vset _ _ _ _ _ Es). destruct (N.eqb_spec r i) as [->|_]; [exfalso; apply HS; left; reflexivity|exact Hv].
+Qed.
+
+Lemma root_at_rebuild ob rso r S i st : root_at r S st -> root_at r S (rebuild_at ob rso i st).
+Proof. intros (H1 & H2 & H3). destruct (rebuild_at_fields ob rso i st) as (E1 & E2 & _). repeat split; rewrite ?E1, ?E2; assumption. Qed.
 
 Lemma vget_iota n r : r < N.of_nat n -> vget (map N.of_nat (seq 0 n)) r = Some r.
 Proof.
@@ -77,26 +110,27 @@ Qed.
 
 Lemma cset_root ob rso fuel g r b s1 :
   sort_run ob rso fuel (CSet r) (init_state g 0) = Ok s1 ->
-  getb g r = Some b -> has_kind K_COLL b = false -> root_at r s1.
+  getb g r = Some b -> has_kind K_COLL b = false -> root_at r [] s1.
 Proof.
   intros H Hb Hc. destruct fuel as [|f]; [discriminate|].
   cbn [sort_run] in H. unfold s_rd at 1 in H. cbn [st_gr init_state] in H. rewrite Hb in H.
   change (visited (init_state g 0) r) with false in H. cbv iota in H. rewrite Hc in H.
   unfold seq2 at 1 in H.
   destruct (assign r (init_state g 0)) as [s0| |] eqn:Ea; cbn [bind] in H; try discriminate.
-  assert (H0 : root_at r s0).
+  assert (H0 : root_at r [] s0).
   { destruct (assign_cases _ _ _ Ea) as [([] & _)|(_ & v & Hv & ->)]. cbn [st_nidx st_next init_state] in Hv.
-    split; cbn [st_nidx st_vis]; [|left; reflexivity].
+    split; cbn [st_nidx st_vis]; [|split; [left; reflexivity|intros []]].
     rewrite (vget_vset _ _ _ _ _ Hv), N.eqb_refl. reflexivity. }
-  revert H H0. generalize s0 s1. change (preserves (root_at r)
+  revert H H0. generalize s0 s1. change (preserves (root_at r [])
     (if has_kind K_NODE b then sort_run ob rso f (CGraph r)
      else if has_kind K_SHAPE b then sort_run ob rso f (CShape r)
      else if has_kind K_CTRL b then sort_run ob rso f (CCtrl r)
      else if has_kind K_SHADER b then sort_run ob rso f (CNet r);; sort_run ob rso f (CSet (s_texset b))
      else s_rd (fun st => match getb (st_gr st) r with Some b' => kids b' | None => [] end)
              (fun l => s_foreach l (fun i0 => sort_run ob rso f (CSet i0))))).
-  pose proof (root_at_assign r) as HA. pose proof (fun i st => root_at_rebuild ob rso r i st) as HR.
-  pres HA HR.
+  pose proof (root_at_assign r) as HA. pose proof (root_at_mark r) as HM. pose proof (root_at_index r) as HX.
+  pose proof (fun S i st => root_at_rebuild ob rso r S i st) as HR.
+  pres HA HM HX HR.
 Qed.
 
 Theorem root_first fuel ob g st r :
@@ -106,8 +140,9 @@ Theorem root_first fuel ob g st r :
 Proof.
   intros Hn H Hr Hc. rewrite pretty_indices_unfold in H.
   destruct (roots_loop ob fuel _ (init_state g 0)) as [s1| |] eqn:E; cbn [bind] in H; try discriminate.
-  pose proof (root_at_assign r) as HA. pose proof (fun i st => root_at_rebuild ob [] r i st) as HR.
-  assert (H1 : root_at r s1).
+  pose proof (root_at_assign r) as HA. pose proof (root_at_mark r) as HM. pose proof (root_at_index r) as HX.
+  pose proof (fun S i st => root_at_rebuild ob [] r S i st) as HR.
+  assert (H1 : root_at r [] s1).
   { unfold first_root in Hr. revert E Hr.
     assert (Hall : forall i, In i (indices_where (has_kind K_NODE) 0 g) -> i < vlen g).
     { intros i Hi. apply indices_where_spec in Hi. lia. }
@@ -122,10 +157,10 @@ Proof.
       assert (Hb : exists b, getb g r = Some b).
       { apply getb_in_range; [|apply Hall; left; reflexivity]. specialize (Hall r (or_introl eq_refl)). lia. }
       destruct Hb as (b & Hb).
-      assert (H0 : root_at r s0).
+      assert (H0 : root_at r [] s0).
       { eapply cset_root; eauto. unfold kind_at in Hc. rewrite Hb in Hc. exact Hc. }
-      revert E H0. apply (roots_loop_preserves (root_at r) ob fuel l HA HR). }
-  assert (H2 : root_at r st) by (eapply (leftover_preserves (root_at r)); eauto).
+      revert E H0. apply (roots_loop_preserves (root_at r) ob fuel l [] HA HM HX HR). }
+  assert (H2 : root_at r [] st) by (eapply (leftover_preserves (root_at r)); eauto).
   apply H2.
 Qed.
 
@@ -137,11 +172,13 @@ Proof.
   destruct (roots_loop ob fuel _ (init_state g 0)) as [s1| |] eqn:E; cbn [bind] in H; try discriminate.
   assert (HA : forall i, preserves (fun s => grel g (st_gr s)) (assign i)).
   { intros i s s' Ha HG. rewrite (assign_gr _ _ _ Ha). exact HG. }
+  assert (HX : forall i, preserves (fun s => grel g (st_gr s)) (s_set_index i)).
+  { intros i s s' Ha HG. rewrite (set_index_gr _ _ _ Ha). exact HG. }
   assert (HR : forall i s, grel g (st_gr s) -> grel g (st_gr (rebuild_at ob [] i s))).
   { intros i s. apply rebuild_at_grel; assumption. }
   assert (H1 : grel g (st_gr s1)).
-  { eapply (roots_loop_preserves (fun s => grel g (st_gr s))); [exact HA|exact HR|exact E|apply grel_refl]. }
-  eapply (leftover_preserves (fun s => grel g (st_gr s))); eauto.
+  { eapply (roots_loop_preserves_unary (fun s => grel g (st_gr s))); [exact HA|auto|exact HX|exact HR|exact E|apply grel_refl]. }
+  eapply (leftover_preserves_unary (fun s => grel g (st_gr s))); eauto.
 Qed.
 
 (* ---- SetBlockOrder on the sorter's blocks ---- *)
